@@ -100,7 +100,8 @@ def wellformed(obj, nozero=False):
             problems.append("ttensor: core order != number of factors")
         else:
             for i, f in enumerate(fm):
-                if not isinstance(f, np.ndarray) or f.ndim != 2 or f.shape[1] != cs[i]:
+                is_matrix = isinstance(f, np.ndarray) or (hasattr(f, "toarray") and hasattr(f, "tocoo"))      # ndarray or SciPy sparse matrix
+                if not is_matrix or f.ndim != 2 or f.shape[1] != cs[i]:
                     problems.append(f"ttensor: factor {i} shape {getattr(f, 'shape', None)} core {cs}")
         problems += wellformed(obj.core, nozero=False)
     elif k == "tenmat":
